@@ -612,11 +612,17 @@ def number_form(rng, v):
 _PATH_FORM = [0]
 
 
-def path_form(path):
-    """the same directory in the spellings a caller may use (rotating): absolute, with a trailing slash,
-    relative to the current directory, './relative/'"""
-    _PATH_FORM[0] += 1
-    k = _PATH_FORM[0] % 5
+PATH_FORM_NAMES = ["absolute", "absolute with a trailing slash", "relative to the working directory", "./relative/ with a trailing slash",
+                   "absolute"]
+
+
+def path_form(path, k=None):
+    """the same directory in the spellings a caller may use (rotating; k forces one): absolute, with a trailing
+    slash, relative to the current directory, './relative/'.  path_form.last = the spelling chosen"""
+    if k is None:
+        _PATH_FORM[0] += 1
+        k = _PATH_FORM[0] % 5
+    path_form.last = k
     if k == 1:
         return path + os.sep
     if k == 2:
